@@ -362,16 +362,28 @@ def level_engine(lim, quota):
         return _LEVEL_ENGINES[key]
 
 
-def limit_levels(ie: int, has_s: bool, n_s: int, iq: int, has_q: bool, q_s: int, how: int) -> bool:
+_UNIQ = [0]
+SMALLBOX = [(0,), (1,), (2,), (3,)]
+
+
+def limit_levels(ie: int, has_s: bool, n_s: int, iq: int, has_q: bool, q_s: int, how: int, prior: int = 0) -> bool:
     """
     pre: 0 <= ie < len(LEVEL_LIMITS) and 0 <= iq < len(LEVEL_QUOTAS) and -1 <= n_s <= 5 and 0 <= how < 2
     pre: q_s in (-1, 3000, 500000)
     pre: (iq == 0 and not has_q and q_s == -1) if H.P('part') == 'limit' else (ie == 0 and not has_s and n_s == -1)
-    pre: H.fresh(ie, has_s, n_s, iq, has_q, q_s, how)
+    pre: 0 <= prior < 3
+    pre: H.fresh(ie, has_s, n_s, iq, has_q, q_s, how, prior)
     post: _
     """
     # the two protection options given when the engine is created and again for one statement: the statement's win;
-    # an option given at neither level has its default (-1: unlimited)
+    # an option given at neither level has its default (-1: unlimited).  What the same engine evaluated before is an
+    # input too: the same texts may have been evaluated with no options (prior 1) or with lax ones (prior 2).  Every
+    # path uses texts of its own (padded with blanks), so nothing but the stated history is shared between paths.
+    how, prior = SMALLBOX[how][0], SMALLBOX[prior][0]
+    with H.NoTracing():
+        _UNIQ[0] += 1
+        pad = ' ' * _UNIQ[0]
+    t_s, t_q = '$s' + pad, '$t + $t' + pad
     n_e, q_e = LEVEL_LIMITS[ie][0], LEVEL_QUOTAS[iq][0]
     eng = level_engine(n_e, q_e)
     so = {}
@@ -386,7 +398,17 @@ def limit_levels(ie: int, has_s: bool, n_s: int, iq: int, has_q: bool, q_s: int,
     c = ROOT.create_child_context()
     c['s'] = src
     c['t'] = QUOTA_TEXT
-    st = eng('$s', options=so) if how == 0 else eng.copy(so)('$s')
+    if prior:
+        lax = {} if prior == 1 else {'yaql.limitIterators': 1000, 'yaql.memoryQuota': 10 ** 8}
+        with H.NoTracing():
+            for text in (t_s, t_q):
+                pc = ROOT.create_child_context()
+                pc['s'], pc['t'] = iter(()), 'x'
+                try:
+                    (eng(text, options=lax) if how == 0 else eng.copy(lax)(text)).evaluate(context=pc)
+                except Exception:
+                    pass
+    st = eng(t_s, options=so) if how == 0 else eng.copy(so)(t_s)
     try:
         res = st.evaluate(context=c)
         raised = False
@@ -395,7 +417,7 @@ def limit_levels(ie: int, has_s: bool, n_s: int, iq: int, has_q: bool, q_s: int,
     ok = raised == (0 <= n < length) and not src.blown and (n < 0 or src.pulls <= n + 1)
     if not raised:
         ok = ok and len(res) == length
-    st = eng('$t + $t', options=so) if how == 0 else eng.copy(so)('$t + $t')
+    st = eng(t_q, options=so) if how == 0 else eng.copy(so)(t_q)
     try:
         st.evaluate(context=c)
         over = False
@@ -622,6 +644,25 @@ class Marker:
         return 'Marker(%s)' % self.name
 
 
+class IntMarker(int):
+    """a number: Python integers are unbounded, so the quota applies to them like to any other value"""
+
+
+class FloatMarker(float):
+    pass
+
+
+MARKER_KIND = H.P('marker', 'object')
+
+
+def make_marker():
+    if MARKER_KIND == 'int':
+        return IntMarker(5)
+    if MARKER_KIND == 'float':
+        return FloatMarker(2.5)
+    return Marker('m')
+
+
 def quota_unit(q: int, c1: int, s1: int, c2: int, s2: int, via_engine: bool) -> bool:
     """
     pre: -1 <= q <= 400 and -3 <= c1 <= 40 and -3 <= c2 <= 40 and 0 <= s1 <= 200 and 0 <= s2 <= 200
@@ -740,7 +781,7 @@ def repetition_ok(q, right, length, swap):
 def _quota_context():
     """child of the standard context with: mk() -> the marker object, use(x) -> logs that it ran"""
     ctx = ROOT.create_child_context()
-    state = {'marker': Marker('m'), 'used': 0}
+    state = {'marker': make_marker(), 'used': 0}
 
     def mk():
         return state['marker']
@@ -749,7 +790,7 @@ def _quota_context():
         state['used'] += 1
         return 1
 
-    @specs.parameter('x', yaqltypes.PythonType(Marker, nullable=False))
+    @specs.parameter('x', yaqltypes.PythonType((Marker, IntMarker, FloatMarker), nullable=False))
     def use_typed(x):
         state['used'] += 1
         return 1
@@ -1005,6 +1046,11 @@ def conditions(tier, seed):
     for which in QUOTA_EXPRS:
         add('quota_flow[%s]' % which, 'quota_flow', 'Q in [-1,400], stubbed size of the value in [0,500]; ' + QUOTA_EXPRS[which],
             t, expr=which)
+    for kind in ('int', 'float'):
+        for which in (('result', 'arg-of-function', 'passed-through') if q else [w for w in QUOTA_EXPRS if w != 'constant-arg']):
+            add('quota_flow[%s,%s]' % (which, kind), 'quota_flow', 'Q in [-1,400], stubbed size in [0,500] of a value that is a '
+                'number (%s subclass instance; Python integers are unbounded); %s' % (kind, QUOTA_EXPRS[which]), t, expr=which,
+                marker=kind)
     for name in CHAINS:
         if q and name not in ('str+', 'list+', 'dict.set', 'append'):
             continue
@@ -1084,10 +1130,12 @@ def replay(cond, args):
         return {'reproduced': True, 'key': 'C08/limit_levels',
                 'what': 'engine created with limitIterators=%r memoryQuota=%r, statement options %s through %s: a 4-element lazy '
                         'sequence / an 8000-character concatenation do not obey the statement-level (else engine-level, else '
-                        'default) values%s'
+                        'default) values%s%s'
                         % (n_e, q_e, dict(([('limitIterators', vals['n_s'])] if vals['has_s'] else []) +
                                           ([('memoryQuota', vals['q_s'])] if vals['has_q'] else [])),
                            'engine(expr, options=...)' if vals['how'] == 0 else 'engine.copy(options)',
+                           ['', '; the engine evaluated the same texts without options before',
+                            '; the engine evaluated the same texts with lax options before'][vals.get('prior', 0)],
                            ' (%r)' % err if err else '')}
     if f == 'limit_history':
         return {'reproduced': True, 'key': 'C08/limit_history',
